@@ -172,7 +172,8 @@ def check(sc, r):
     out, dead = L.thread_deaths(ID, r)
     if r.failure:
         roles = sorted(set((t.get("role") or "?").split(":")[0] for t in (r.failure_info or []))) if r.failure == "stuck" else []
-        out.append(C.v("liveness", "C05/run-%s/%s" % (r.failure, "+".join(roles)), "run ended %s: %s" % (r.failure, r.failure_info)))
+        fsm = "+".join(sorted(set(st.get("fsm", "?") for st in r.final.values() if "error" not in st)))
+        out.append(C.v("liveness", "C05/run-%s/%s/%s" % (r.failure, C.hang_where(r), fsm), "run ended %s: %s" % (r.failure, r.failure_info)))
         return out
     for v in out:
         if v["sig"] == "C05/undefined-event/acc/Sta3+Evt18":
